@@ -127,17 +127,23 @@ def run_logged(plan, dump_step=None):
         fps = []
         dump = None
         decisions = 0
+        stopped = None
         for k in range(plan["nsteps"]):
-            rp = hive_cosim.crank(rp, 1).runner_payload
+            try:
+                rp = hive_cosim.crank(rp, 1).runner_payload
+            except Exception as e:
+                # an exception escaping HIVE ends this execution; where and what is part of the comparison
+                stopped = [k, type(e).__name__]
+                break
             run.rp = rp
             fps.append(sim_fp(rp.s, drop_ids=True)[:16])
             decisions += len(rp.s.applied_instructions)
             if dump_step is not None and k == dump_step:
                 dump = {repr(key): repr(val) for key, val in entity_table(rp.s).items()}
                 break
-        summ = rp.e.reporter.get_summary_stats(rp)
+        summ = rp.e.reporter.get_summary_stats(rp) if stopped is None else None
         return {"fps": fps, "ev": [e[:16] for e in rec.ev], "summary": digest(canon(summ)) if summ is not None else None,
-                "dump": dump, "decisions": decisions}
+                "dump": dump, "decisions": decisions, "stopped": stopped}
     finally:
         _close_files(run)
         if d is not None:
@@ -229,6 +235,8 @@ def compare_logs(logs, hashseeds):
             for k in range(max(len(a), len(b))):
                 if k >= len(a) or k >= len(b) or a[k] != b[k]:
                     return ref_hs, hs, k, "state" if what == "fps" else "events"
+        if ref.get("stopped") != x.get("stopped"):
+            return ref_hs, hs, len(ref["fps"]), f"how the run ended ({ref.get('stopped')} vs {x.get('stopped')})"
         if ref["summary"] != x["summary"]:
             return ref_hs, hs, len(ref["fps"]) - 1, "summary"
     return None
@@ -292,12 +300,15 @@ class C01Driver:
         sim_s = 0
         errors = []
         diverged = 0
+        stopped_n = 0
         for i, plan in enumerate(plans):
             logs = {hs: res[hs][i] for hs in hashseeds}
             bad = [l for l in logs.values() if "error" in l]
             if bad:
                 errors.append(bad[0]["error"])
                 continue
+            if logs[hashseeds[0]].get("stopped"):
+                stopped_n += 1
             steps += sum(len(l["fps"]) for l in logs.values())
             dt = plan["spec"]["sim"]["timestep_duration_seconds"] if plan.get("spec", {}).get("sim") else 60
             sim_s += sum(len(l["fps"]) for l in logs.values()) * dt
@@ -312,7 +323,7 @@ class C01Driver:
                              "pair": [a, b], "plan": plan, "seed": plan["seed"]})
         self._viol_plans = {v["plan_index"]: v for v in viol}
         cov = {"evaluations": len(plans), "distinct_nontrivial": len(nontriv), "interpreters_per_scenario": k, "hash_seeds": hashseeds,
-               "steps": steps, "simulated_seconds": sim_s, "simulated_hours": sim_s / 3600.0, "scenarios_diverging": diverged,
+               "steps": steps, "simulated_seconds": sim_s, "simulated_hours": sim_s / 3600.0, "scenarios_diverging": diverged, "scenarios_ended_by_an_exception_escaping_hive_identically_in_all_interpreters": stopped_n,
                "shipped_scenarios": [s for s, _ in shipped], "fault_kinds_fired": {"hash_seed_change": len(plans) * (k - 1), "fresh_interpreter": len(plans) * k},
                "runs_per_hour": len(plans) * k / max(1e-9, time.time() - t0) * 3600,
                "samples": [{"seed": p["seed"], "shipped": p.get("shipped"), "size": plan_size(p) if p.get("spec", {}).get("sim") else None,
